@@ -192,6 +192,24 @@ def data_digest(o):
                          {n: [c[0], c[1]] for n, c in pl["cov"].items()}, pl["reweighted"], repr(pl["tag"]), o.N, dict(o.shape))
 
 
+def plain_close(a, b, rtol=1e-12):
+    """structural equality plus numerical agreement to rtol (relative to the object's scale)"""
+    if a["names"] != b["names"] or a["idl"] != b["idl"] or sorted(a["cov"]) != sorted(b["cov"]) or a["reweighted"] != b["reweighted"]:
+        return False
+    sc = abs(a["value"]) + max([float(np.max(np.abs(d))) if len(d) else 0.0 for d in a["deltas"].values()] + [0.0]) + 1e-300
+    if not abs(a["value"] - b["value"]) <= rtol * sc:
+        return False
+    for n in a["mc"]:
+        if a["deltas"][n].shape != b["deltas"][n].shape or not np.all(np.abs(a["deltas"][n] - b["deltas"][n]) <= rtol * sc):
+            return False
+        if not abs(a["r_values"][n] - b["r_values"][n]) <= rtol * (sc + abs(a["r_values"][n])):
+            return False
+    for n in a["cov"]:
+        if not np.allclose(a["cov"][n][1], b["cov"][n][1], rtol=rtol, atol=rtol * float(np.max(np.abs(a["cov"][n][1])) + 1e-300)):
+            return False
+    return True
+
+
 def plain_equal(a, b):
     """bitwise comparison of two plain snapshots; returns None or a description of the first difference."""
     if a["names"] != b["names"]:
